@@ -85,9 +85,9 @@ def pe(e):
     if t == "maplit":
         return f"map[{e[1]}, {e[2]}]{{" + ", ".join(f"{pe(k)}: {pe(v)}" for k, v in e[3]) + "}"
     if t == "method":
-        return f"{ppost(e[1])}.{e[2]}({', '.join(pe(a) for a in e[3])})"
+        return f"{ppost(e[1], True)}.{e[2]}({', '.join(pe(a) for a in e[3])})"
     if t == "field":
-        return f"{ppost(e[1])}.{e[2]}"
+        return f"{ppost(e[1], True)}.{e[2]}"
     if t == "fn":
         params = ", ".join(f"{n}: {ty}" if ty else n for n, ty in e[1])
         ret = f" -> {e[2]}" if e[2] else ""
@@ -115,11 +115,20 @@ def pp(e):
     return f"({pe(e)})"
 
 
-def ppost(e):
-    """receiver of a postfix (call / index / dot): a primary that has no postfix of its own"""
+def ppost(e, dot=False):
+    """receiver of a postfix (call / index / dot): a primary that has no postfix of its own; a dot chain
+    (a.b.c(), a.m().n()) is one postfix and is printed natively when the next postfix is a dot too"""
     if e[0] == "var":
         return e[1]
+    if dot and e[0] in ("field", "method") and _chain_base(e):
+        return pe(e)
     return f"({pe(e)})"
+
+
+def _chain_base(e):
+    while e[0] in ("field", "method"):
+        e = e[1]
+    return e[0] == "var"
 
 
 def pstmt(s, ind=0):
@@ -137,7 +146,7 @@ def pstmt(s, ind=0):
     if t == "setindex":
         return f"{p}{ppost(s[1])}[{pe(s[2])}] = {pe(s[3])}\n"
     if t == "setfield":
-        return f"{p}{ppost(s[1])}.{s[2]} = {pe(s[3])}\n"
+        return f"{p}{ppost(s[1], True)}.{s[2]} = {pe(s[3])}\n"
     if t == "print":
         return f"{p}print {pe(s[1])}\n"
     if t == "if":
